@@ -16,7 +16,14 @@ type obj struct {
 	id      H
 	hash    H
 	contrib H
+	tok     byte // race mode: release -> acquire token of the object
+	tok2    byte // RWMutex: readers -> writer
 }
+
+func (o *obj) acq()  { raceAcquire(unsafe.Pointer(&o.tok)) }
+func (o *obj) rel()  { raceReleaseMerge(unsafe.Pointer(&o.tok)) }
+func (o *obj) acq2() { raceAcquire(unsafe.Pointer(&o.tok2)) }
+func (o *obj) rel2() { raceReleaseMerge(unsafe.Pointer(&o.tok2)) }
 
 // enter resets the model state when the object is first used in an execution.
 func (o *obj) enter(g *G) bool {
@@ -71,11 +78,12 @@ func (m *Mutex) Lock() {
 		m.locked, m.waiters = false, nil
 	}
 	for m.locked {
-		m.waiters = append(m.waiters, g)
+		m.waiters = push(m.waiters, g)
 		e.touchObj(&m.o, m.state())
 		e.block(g, "Mutex.Lock")
 	}
 	m.locked = true
+	m.o.acq()
 	g.hash = mix2(g.hash, opLock, uint64(m.o.hash))
 	e.touchG(g)
 	e.touchObj(&m.o, m.state())
@@ -97,6 +105,7 @@ func (m *Mutex) TryLock() bool {
 		return false
 	}
 	m.locked = true
+	m.o.acq()
 	g.hash = mix2(g.hash, opLock, uint64(m.o.hash))
 	e.touchG(g)
 	e.touchObj(&m.o, m.state())
@@ -118,6 +127,7 @@ func (m *Mutex) Unlock() {
 		panic("sync: unlock of unlocked mutex")
 	}
 	m.locked = false
+	m.o.rel()
 	g.hash = mix(g.hash, opUnlock)
 	m.o.hash = mix(m.o.hash, uint64(g.hash))
 	if len(m.waiters) > 0 {
@@ -172,12 +182,14 @@ func (m *RWMutex) Lock() {
 	}
 	for m.writer || m.readers > 0 {
 		m.pendingW++
-		m.wq = append(m.wq, g)
+		m.wq = push(m.wq, g)
 		e.touchObj(&m.o, m.state())
 		e.block(g, "RWMutex.Lock")
 		m.pendingW--
 	}
 	m.writer = true
+	m.o.acq()
+	m.o.acq2()
 	g.hash = mix2(g.hash, opLock, uint64(m.o.hash))
 	e.touchG(g)
 	e.touchObj(&m.o, m.state())
@@ -198,6 +210,7 @@ func (m *RWMutex) Unlock() {
 		panic("sync: Unlock of unlocked RWMutex")
 	}
 	m.writer = false
+	m.o.rel()
 	g.hash = mix(g.hash, opUnlock)
 	m.o.hash = mix(m.o.hash, uint64(g.hash))
 	// readers that arrived during the write are admitted first, as in sync.RWMutex
@@ -228,13 +241,15 @@ func (m *RWMutex) RLock() {
 		m.reset()
 	}
 	if m.writer || m.pendingW > 0 {
-		m.rq = append(m.rq, g)
+		m.rq = push(m.rq, g)
 		e.touchObj(&m.o, m.state())
 		e.block(g, "RWMutex.RLock") // admitted by Unlock / the last pending writer
+		m.o.acq()
 		e.touchG(g)
 		return
 	}
 	m.readers++
+	m.o.acq()
 	g.hash = mix2(g.hash, opRLock, uint64(m.o.hash))
 	e.touchG(g)
 	e.touchObj(&m.o, m.state())
@@ -255,6 +270,7 @@ func (m *RWMutex) RUnlock() {
 		panic("sync: RUnlock of unlocked RWMutex")
 	}
 	m.readers--
+	m.o.rel2()
 	g.hash = mix(g.hash, opRUnlock)
 	if m.readers == 0 && len(m.wq) > 0 {
 		w := m.wq[0]
@@ -279,6 +295,8 @@ func (m *RWMutex) TryLock() bool {
 		return false
 	}
 	m.writer = true
+	m.o.acq()
+	m.o.acq2()
 	g.hash = mix2(g.hash, opLock, uint64(m.o.hash))
 	e.touchG(g)
 	e.touchObj(&m.o, m.state())
@@ -299,6 +317,7 @@ func (m *RWMutex) TryRLock() bool {
 		return false
 	}
 	m.readers++
+	m.o.acq()
 	g.hash = mix2(g.hash, opRLock, uint64(m.o.hash))
 	e.touchG(g)
 	e.touchObj(&m.o, m.state())
@@ -344,6 +363,7 @@ func (w *WaitGroup) Add(delta int) {
 	if w.n < 0 {
 		panic("sync: negative WaitGroup counter")
 	}
+	w.o.rel()
 	g.hash = mix2(g.hash, opWgAdd, uint64(delta))
 	w.o.hash += mix(g.hash, 7) // commutative: the order of Add/Done calls is not observable
 	if w.n == 0 {
@@ -371,13 +391,15 @@ func (w *WaitGroup) Wait() {
 		w.n, w.waiters = 0, nil
 	}
 	if w.n == 0 {
+		w.o.acq()
 		g.hash = mix2(g.hash, opWgWait, uint64(w.o.hash))
 		e.touchG(g)
 		return
 	}
-	w.waiters = append(w.waiters, g)
+	w.waiters = push(w.waiters, g)
 	e.touchObj(&w.o, w.state())
 	e.block(g, "WaitGroup.Wait")
+	w.o.acq()
 	e.touchG(g)
 }
 
@@ -417,15 +439,17 @@ func (o *Once) Do(f func()) {
 	}
 	if o.done {
 		// passive: does not count as progress for spin detection
+		o.o.acq()
 		g.hash = mix2(g.hash, opOnce, uint64(o.o.hash))
 		e.touchG(g)
 		return
 	}
 	g.active()
 	if o.running {
-		o.waiters = append(o.waiters, g)
+		o.waiters = push(o.waiters, g)
 		e.touchObj(&o.o, o.state())
 		e.block(g, "Once.Do (another goroutine is running the function)")
+		o.o.acq()
 		g.hash = mix2(g.hash, opOnce, uint64(o.o.hash))
 		e.touchG(g)
 		return
@@ -441,6 +465,7 @@ func (o *Once) Do(f func()) {
 		g := yield()
 		g.active()
 		o.running, o.done = false, true
+		o.o.rel()
 		g.hash = mix(g.hash, opOnceDone)
 		o.o.hash = g.hash
 		for _, x := range o.waiters {
@@ -461,13 +486,10 @@ type atomObj struct {
 }
 
 func atomOf(p unsafe.Pointer, g *G) *obj {
-	if ex.atoms == nil {
-		ex.atoms = map[unsafe.Pointer]*atomObj{}
-	}
-	a, ok := ex.atoms[p]
-	if !ok {
+	a := (*atomObj)(ex.atoms.get(p))
+	if a == nil {
 		a = &atomObj{}
-		ex.atoms[p] = a
+		ex.atoms.put(p, unsafe.Pointer(a))
 	}
 	a.o.enter(g)
 	return &a.o
